@@ -280,6 +280,7 @@ def main(argv=None):
     ap.add_argument('--jobs', type=int, default=int(os.environ.get('VERIF_JOBS', '0')) or (os.cpu_count() or 4))
     ap.add_argument('--limit', type=int, default=0, help='debug: stop after N chunks (evidence says not exhaustive)')
     ap.add_argument('--no-evidence', action='store_true')
+    ap.add_argument('--show', type=int, default=0, help='debug: print the first N candidate violations (before confirmation)')
     args = ap.parse_args(argv)
     prop = args.property.upper()
     try:
@@ -333,6 +334,8 @@ def main(argv=None):
             fork_pool(gen, args.jobs, base, on_result)
         # --- confirm candidate violations in fresh interpreters ---------------------
         cand.sort(key=lambda c: (c[3], c[4]))
+        for c in cand[:args.show]:
+            print('CANDIDATE %s\n    %s' % (repr(c[0])[:300], '\n    '.join(str(e)[:500] for e in c[1][:3])))
         confirmed, unconfirmed = [], []
 
         def chunk_cases_of(cidx):
